@@ -145,6 +145,74 @@ def traversal_order(amask: int, perm: int, kmask: int, forms_mode: int):
         check("versions-rule-order-and-dependencies-independent-of-set-order", results[0] == results[1], (results[0], results[1]))
 
 
+ALIAS_KINDS = ["force_local-clone", "partial-clone", "plain-alias", "context-clone", "clone-of-clone", "wrapped-by-functools"]
+ALIAS_SRC = (
+    "import functools\n"
+    "def helper(x):\n    return x + K\n"
+    "K = 1\n"
+    "@m.memento_function\n"
+    "def f(x=0):\n    return helper(x) + 1\n"
+    "%(alias)s\n"
+    "@m.memento_function\n"
+    "def g(x):\n    return %(body)s\n"
+    "@m.memento_function\n"
+    "def top(x):\n    return g(x) + 1\n"
+)
+ALIAS_DEFS = {
+    "force_local-clone": "f2 = f.force_local()", "partial-clone": "f2 = f.partial(x=1)", "plain-alias": "f2 = f",
+    "context-clone": "f2 = f.with_context_args({'k': 1})", "clone-of-clone": "f2 = f.force_local().ignore_result()",
+    "wrapped-by-functools": "f2 = functools.wraps(f)(lambda *a, **k: f(*a, **k))",
+}
+ALIAS_BODIES = ["f(x) + 1", "(f2(x) or 0) + 1", "f(x) + (f2(x) or 0)", "(f2(x) or 0) + f(x) + helper(x)"]
+
+
+@obligation(
+    "C03.alias_order",
+    covers=("both-names-referenced", "non-identity-order"),
+    split={"ak": list(range(len(ALIAS_KINDS)))},
+    bounds="g references a memento function f and / or a module-level alias of it (a force_local / partial / with_context_args clone, a "
+           "clone of a clone, a plain second name, a functools.wraps wrapper) in 4 body shapes; every set of dotted names is iterated in "
+           "each of up to 24 orders: the versions, rule keys and dependency sets of g and of its caller top are those of the sorted order",
+    variables="choice: alias kind, body shape, permutation index",
+    stubs=("PermutedSet: iteration order of the sets of dotted names is a free choice (hash randomisation)",),
+    budget_s={"quick": 120, "thorough": 300},
+    choice_vars=3,
+)
+def alias_order(ak: int, body: int, perm: int):
+    body = pick(body, len(ALIAS_BODIES))
+    perm = pick(perm, 24)
+    with concrete_region():
+        src = ALIAS_SRC % {"alias": ALIAS_DEFS[ALIAS_KINDS[ak]], "body": ALIAS_BODIES[body]}
+        if "f(x)" in ALIAS_BODIES[body] and "f2" in ALIAS_BODIES[body]:
+            cover("both-names-referenced")
+        if perm:
+            cover("non-identity-order")
+        results = []
+        real = ch.list_dotted_names
+        for p_ in (0, perm):
+            sb = Sandbox(kinds="memory")
+            clear_process_state()
+            stub = _PermutingDotted(real, p_)
+            ch.list_dotted_names = stub
+            mm.list_dotted_names = stub
+            prog = Program(MOD)
+            try:
+                prog.exec(src)
+                out = {}
+                for nm in ("g", "top"):
+                    fn = getattr(prog, nm)
+                    out[nm] = (fn.version(), sorted(r.key for r in fn.hash_rules()),
+                               sorted(x.qualified_name_without_version for x in fn.dependencies().transitive_memento_fn_dependencies()))
+                results.append(out)
+            finally:
+                ch.list_dotted_names = real
+                mm.list_dotted_names = real
+                prog.close()
+                sb.close()
+        check("versions-rules-and-dependencies-independent-of-set-order", results[0] == results[1],
+              (ALIAS_KINDS[ak], ALIAS_BODIES[body], perm, results[0], results[1]))
+
+
 @obligation(
     "C03.definition_query_order",
     covers=("permuted-definition", "permuted-queries"),
